@@ -12,8 +12,9 @@ import DdoModel.Examples.McpDp
   per vertex; `merge_abs_le` (**proved**): the same, on the states; `relax_ge`, `relax_ge_of_merge` (**proved**): the relaxed cost of an arc into a
   merged-away state is at least its cost;
 * `domain_ne_nil` (**proved**): no state has an empty domain (every state has a completion: the value-to-go is never −∞);
-* stated, not proved (`def … : Prop`), all three evaluated pointwise by the driver on every generated instance of the
-  domain: `RubAdmissibleStmt` (the rough bound dominates the value-to-go of every state with one benefit per vertex — not
+* stated here (`def … : Prop`), all three evaluated pointwise by the driver on every generated instance of the domain;
+  `McpProofs.lean` PROVES the first two at full strength (`mergeOk : MergeOkStmt`, `rubAdmissible : RubAdmissibleStmt`), the
+  `WfRel` instance (`wfRel`) and the model half of the third (`dpExact_partial`): `RubAdmissibleStmt` (the rough bound dominates the value-to-go of every state with one benefit per vertex — not
   only the reachable ones), `MergeOkStmt` (`c + H(u) ≤ relax(c) + H(merge X)` for every `u ∈ X`), `DpExactStmt` (value of a
   prefix + value-to-go = the best cut of the specification among the sides extending the prefix). -/
 namespace Ddo.Examples.McpModel
